@@ -76,6 +76,20 @@ inductive Shape where
   | composite (comps : List Component)
   deriving Repr, Inhabited
 
+/-! ## Specification vocabulary (used only in theorem statements and oracles) -/
+
+/-- `v` is the least element of `xs`; `0` when `xs` is empty (the `unwrap_or_default()` of the builders). -/
+def IsMinOr0 (v : Int) (xs : List Int) : Prop :=
+  (xs = [] → v = 0) ∧ (xs ≠ [] → (∀ x ∈ xs, v ≤ x) ∧ v ∈ xs)
+
+/-- `v` is the greatest element of `xs`; `0` when `xs` is empty. -/
+def IsMaxOr0 (v : Int) (xs : List Int) : Prop :=
+  (xs = [] → v = 0) ∧ (xs ≠ [] → (∀ x ∈ xs, x ≤ v) ∧ v ∈ xs)
+
+/-- `v` is the greatest element of `xs ∪ {0}` (unsigned maxima that start from 0). -/
+def IsMaxNat (v : Nat) (xs : List Nat) : Prop :=
+  (∀ x ∈ xs, x ≤ v) ∧ (v ∈ xs ∨ v = 0)
+
 /-! ## 1. MetricsBuilder (metrics_and_limits.rs:41-188) -/
 
 /-- `LongMetric { advance: u16, side_bearing: i16 }` -/
@@ -196,7 +210,7 @@ structure Limits where
 
 /-- `GlyphLimits::max` -/
 def Limits.max (a b : Limits) : Limits :=
-  ⟨Nat.max a.maxPoints b.maxPoints, Nat.max a.maxContours b.maxContours, Nat.max a.maxDepth b.maxDepth⟩
+  ⟨Max.max a.maxPoints b.maxPoints, Max.max a.maxContours b.maxContours, Max.max a.maxDepth b.maxDepth⟩
 
 /-- `GlyphInfo` -/
 structure GlyphInfo where
@@ -252,7 +266,7 @@ def MaxBuilder.update (b : MaxBuilder) (g : Glyph) : MaxBuilder :=
 
 /-- the fold closure of metrics_and_limits.rs:257-264.  [NARROW] the two `+` are on u16, unchecked. -/
 def accLimits (acc e : Limits) : Limits :=
-  ⟨acc.maxPoints + e.maxPoints, acc.maxContours + e.maxContours, Nat.max acc.maxDepth (e.maxDepth + 1)⟩
+  ⟨acc.maxPoints + e.maxPoints, acc.maxContours + e.maxContours, max acc.maxDepth (e.maxDepth + 1)⟩
 
 def setLimits (info : List GlyphInfo) (gid : Nat) (l : Limits) : List GlyphInfo :=
   match info[gid]? with
@@ -263,14 +277,20 @@ def setLimits (info : List GlyphInfo) (gid : Nat) (l : Limits) : List GlyphInfo 
     outer `none` = an `unwrap()` on a missing glyph panics;
     `some none` = some child's limits are not known yet (glyph stays pending);
     `some (some l)` = limits resolved. -/
-def stepGlyph (info : List GlyphInfo) (gid : Nat) : Option (Option Limits) := do
-  let gi ← info[gid]?
-  let comps ← gi.components
-  let ls ← comps.mapM fun c => (info[c]?).map (·.limits)
-  if ls.all Option.isSome then
-    some (some ((ls.filterMap id).foldl accLimits {}))
-  else
-    some none
+def stepGlyph (info : List GlyphInfo) (gid : Nat) : Option (Option Limits) :=
+  match info[gid]? with
+  | none => none
+  | some gi =>
+    match gi.components with
+    | none => none
+    | some comps =>
+      if comps.any (fun c => (info[c]?).isNone) then none
+      else
+        let ls := comps.map fun c => (info[c]?).bind (·.limits)
+        if ls.all Option.isSome then
+          some (some ((ls.filterMap id).foldl accLimits {}))
+        else
+          some none
 
 /-- One `pending.retain(…)` sweep: glyphs are visited in the order of `pending`, `glyph_info` and
     `overall_max` are updated as the sweep goes. Returns the new state and the retained gids. -/
@@ -353,7 +373,7 @@ def specContours (g : List Shape) : Nat → Nat → Nat
     | some (.composite comps) => (comps.map fun c => specContours g fuel c.gid).sum
     | _ => 0
 
-def listMax (xs : List Nat) : Nat := xs.foldr Nat.max 0
+def listMax (xs : List Nat) : Nat := xs.foldr max 0
 
 def specDepth (g : List Shape) : Nat → Nat → Nat
   | 0, _ => 0
@@ -366,6 +386,14 @@ def isComposite (g : List Shape) (gid : Nat) : Bool :=
   match g[gid]? with
   | some (.composite _) => true
   | _ => false
+
+/-- The component graph is closed (every referenced gid exists) and acyclic (some rank strictly
+    decreases along every component edge). -/
+structure Acyclic (g : List Shape) (rank : Nat → Nat) : Prop where
+  closed : ∀ (gid : Nat) (comps : List Component), g[gid]? = some (Shape.composite comps) →
+    ∀ c ∈ comps, c.gid < g.length
+  dec : ∀ (gid : Nat) (comps : List Component), g[gid]? = some (Shape.composite comps) →
+    ∀ c ∈ comps, rank c.gid < rank gid
 
 /-! ## 3. Composite bounding boxes (glyphs.rs:753-840) -/
 
@@ -403,7 +431,7 @@ def bboxOfComposite (g : List Shape) : Nat → List Component → Affine → Opt
     | none => none
     | some .empty => bboxOfComposite g (fuel + 1) rest t acc
     | some (.simple contours) =>
-      let acc' := (contours.flatMap id).foldl (fun (a : Option Rect) p => some (Rect.addPt a (t'.apply (ptToRat p)))) acc
+      let acc' := contours.flatten.foldl (fun (a : Option Rect) p => some (Rect.addPt a (t'.apply (ptToRat p)))) acc
       bboxOfComposite g (fuel + 1) rest t acc'
     | some (.composite comps) =>
       match bboxOfComposite g fuel comps t' none with
@@ -419,7 +447,15 @@ termination_by fuel cs => (fuel, cs.length)
 /-- `impl From<Rect> for Bbox` (write-fonts glyf.rs:81): `ot_round` of min/max.
     [NARROW] `f64 as i16` saturates. -/
 def rectToBox (r : Rect) : Box :=
-  ⟨otRound (ratMin r.x0 r.x1), otRound (ratMin r.y0 r.y1), otRound (ratMax r.x0 r.x1), otRound (ratMax r.y0 r.y1)⟩
+  ⟨satI16 (otRound (ratMin r.x0 r.x1)), satI16 (otRound (ratMin r.y0 r.y1)),
+   satI16 (otRound (ratMax r.x0 r.x1)), satI16 (otRound (ratMax r.y0 r.y1))⟩
+
+/-- the rectangle converts without saturation -/
+def Rect.inI16 (r : Rect) : Prop :=
+  -32768 ≤ otRound (ratMin r.x0 r.x1) ∧ -32768 ≤ otRound (ratMin r.y0 r.y1) ∧
+  otRound (ratMax r.x0 r.x1) ≤ 32767 ∧ otRound (ratMax r.y0 r.y1) ≤ 32767
+
+instance (r : Rect) : Decidable r.inI16 := by unfold Rect.inI16; infer_instance
 
 /-- control box of a simple glyph (write-fonts simple.rs:612 `path.control_box().into()`);
     coordinates are integers so no rounding happens. `none` only for a glyph without points. -/
@@ -434,7 +470,7 @@ def pointsBox (pts : List (Int × Int)) : Option Box :=
 def glyphBbox (g : List Shape) (fuel : Nat) (s : Shape) : Option (Option Box) :=
   match s with
   | .empty => some none
-  | .simple contours => some (some ((pointsBox (contours.flatMap id)).getD Box.zero))
+  | .simple contours => some (some ((pointsBox contours.flatten).getD Box.zero))
   | .composite comps =>
     match bboxOfComposite g fuel comps Affine.identity none with
     | none => none
@@ -449,7 +485,7 @@ def resolvedPoints (g : List Shape) : Nat → List Component → Affine → List
   | fuel + 1, c :: rest, t =>
     let t' := t.mul c.xform
     let here := match g[c.gid]? with
-      | some (.simple contours) => (contours.flatMap id).map fun p => t'.apply (ptToRat p)
+      | some (.simple contours) => contours.flatten.map fun p => t'.apply (ptToRat p)
       | some (.composite comps) => resolvedPoints g fuel comps t'
       | _ => []
     here ++ resolvedPoints g (fuel + 1) rest t
@@ -589,7 +625,7 @@ def unicodeRangeBitsOf (cp : Nat) : List Nat :=
   fromTable ++ (if 0x10000 ≤ cp ∧ cp ≤ 0x10FFFF then [57] else [])
 
 /-- set of bits → the 32-bit words (`unicode_range[idx] |= 1 << bit`), as the sorted list of set bits -/
-def bitSet (bits : List Nat) : List Nat := (bits.mergeSort (· ≤ ·)).eraseDups
+def bitSet (bits : List Nat) : List Nat := (List.range 128).filter fun b => bits.contains b
 
 /-- `apply_unicode_range` with no assigned bits -/
 def unicodeRangeBits (cps : List Nat) : List Nat := bitSet (cps.flatMap unicodeRangeBitsOf)
